@@ -57,6 +57,9 @@ Histories (added after seeded change r3m2 — a cached "already sorted" flag on 
   at that moment (derived_case) — the content of C12_deterministic: no dependence on the object's history.
   Quick: ~260 later sorts per run.  r3m2 now: VIOLATION with a shrunk replay (sort; rewire in the nested body;
   sort -> "node 1 is not after producer 3").
+const_value (added after seeded change r4m2 — sort skipped inputs whose Value has a const_value): 20% of the
+  generated nodes set Value.const_value on some outputs (node["const"]); model and oracle ignore it — a produced
+  value with a constant annotation still has a producer.
 Modelled, not verified: heapq (contract only), DoublyLinkedSet internals (C11), node.graph bookkeeping
   and name authority (C01), dict/set iteration order (independent per-graph relinking).
 Finding, fixed in /repo by 86f4e6a (known_findings.d/C12.json, status "fixed"): a GRAPH/GRAPHS-typed
@@ -99,7 +102,8 @@ SRC_CORE = os.path.join(REPO, "src", "onnx_ir", "_core.py")
 # case  = {"kind": "graph"|"function"|"pass", "units": [graph, ...], "target": gid | None,
 #          "alloc": int, "mode": str}
 # graph = {"gid": int, "nodes": [node, ...]}
-# node  = {"id": int, "ins": [ref, ...], "nout": int, "attrs": [attr, ...]}
+# node  = {"id": int, "ins": [ref, ...], "nout": int, "attrs": [attr, ...], "const": [output index, ...] (optional:
+#          outputs whose Value.const_value is set; must be irrelevant to the order)}
 # ref   = None | [producer id, output index]
 # attr  = ["g", graph] | ["gs", [graph, ...]] | ["i"] | ["ref"] | ["refg"] | ["refgs"] (GRAPH / GRAPHS-typed reference attributes)
 # kind "graph": units = [g]; Graph.sort() is called on the graph with id `target` (the root or a nested one)
@@ -152,6 +156,8 @@ def _gen_tree(rng, depth: int, budget: list, ids: list, gids: list, maxdepth: in
             break
         budget[0] -= 1
         node = {"id": ids[0], "ins": [], "nout": rng.choice([1, 1, 1, 2, 3]), "attrs": []}
+        if rng.random() < 0.2:
+            node["const"] = sorted(set(rng.randrange(node["nout"]) for _ in range(rng.choice([1, 1, 2]))))
         ids[0] += 1
         if depth < maxdepth and rng.random() < (0.35 if depth == 0 else 0.3):
             for _ in range(rng.choice([1, 1, 2])):
@@ -268,6 +274,10 @@ def build(case: dict):
         if alloc >= 2:
             keep.append([object() for _ in range(1 + n["id"] % 3)])
         values[n["id"]] = [ir.Value(name=f"v{n['id']}_{k}") for k in range(n["nout"])]
+        for k in n.get("const", []):
+            # a produced value annotated with a constant (e.g. the folded output of a Constant node):
+            # irrelevant to the order — it still has a producer
+            values[n["id"]][k].const_value = ir.tensor([float(n["id"])], name=f"v{n['id']}_{k}")
 
     def mk_graph(g: dict, depth: int):
         nodes = []
@@ -766,6 +776,14 @@ def shrink(case: dict, fails) -> dict:
                             changed = True
                         else:
                             n["attrs"].insert(i, a)
+        for u in cur["units"]:
+            for n in walk_nodes(u):
+                if n.get("const"):
+                    old_c = n.pop("const")
+                    if fails(cur):
+                        changed = True
+                    else:
+                        n["const"] = old_c
         if cur.get("alloc"):
             c2 = dict(cur, alloc=0)
             if fails(c2):
@@ -855,6 +873,9 @@ def features(ck, case: dict, obs: dict) -> None:
                         if ga == gp and ip > ia:
                             captured_after += 1
     ck.hist("nesting_depth", str(depth))
+    cids = {(n["id"], k) for u in case["units"] for n in walk_nodes(u) for k in n.get("const", [])}
+    if any(r is not None and tuple(r) in cids for u in case["units"] for n in walk_nodes(u) for r in n["ins"]):
+        ck.hist("features", "consumed_value_has_const_value")
     if any(a[0] in ("refg", "refgs") for u in case["units"] for n in walk_nodes(u) for a in n["attrs"]):
         ck.hist("features", "graph_typed_reference_attribute")
     if captured_after:
@@ -968,7 +989,7 @@ def run(ck) -> None:
             ck.known_finding(key, next(k["what"] for k in ck._known if k["key"] == key))
             continue
         import re
-        sig = re.sub(r"[\d\[\], >-]+", "#", re.sub(r"^sort #\d+ of the history \(after edits .*?\)\): ", "later sort: ", bad[0]))[:60]
+        sig = re.sub(r"[\d\[\], >-]+", "#", re.sub(r"^sort #\d+ of the history \(after edits .*?\]\]\): ", "", bad[0]))[:60]
         if sig in reported:
             continue
         reported.add(sig)
